@@ -25,6 +25,8 @@ OBLIGATIONS = [NS + t for t in [
     "joint_is_sum", "joint_in_user_units", "likelihood_through_exposed", "exposed_names", "rms_is_sigma", "latent_sites",
     "one_likelihood_site", "model_site", "stripSuffix_empty", "multi_key_injective", "no_underscore_in_repr",
 ]] + ["Pysersic.Props.C11.prior_reparam_constant", "Pysersic.Props.C11.reparam_constant_jacobian"]
+# translated source text proved equal to the model definitions this property's theorems are about
+GEN_KERNELS = ["losses", "tilted_plane_sky_sample"]
 MIRRORED_FILES = ["pysersic/pysersic.py", "pysersic/priors.py", "pysersic/loss.py", "pysersic/rendering.py"]
 ASSUMPTIONS = [
     "numpyro handler semantics (reparam/TransformReparam, mask, substitute, trace, log_density) are modelled by the site list + sum of site log-densities and validated by this tie",
@@ -41,7 +43,7 @@ def gen_cases(rng, n):
         multi = (k % 3 == 2)
         cases.append(dict(kind="multi" if multi else "single", types=[str(rng.choice(PTYPES)) for _ in range(int(rng.integers(1, 5)))] if multi else [PTYPES[k % 7]],
                           sky=SKY[(k // 2) % 3], loss=c07.LOSSES[k % 10], renderer=RKINDS[0 if k % 4 else int(rng.integers(1, 3))],
-                          suffix=str(rng.choice(["", "_a", "_7"])), N=int(rng.choice([10, 12])), mask=str(rng.choice(["none", "random", "half"])),
+                          suffix=str(rng.choice(["", "_a", "_7"])), N=[10, 11, 12, 9][(k // 3) % 4] + 0 * int(rng.choice([10, 12])), mask=str(rng.choice(["none", "random", "half"])),
                           seed=int(rng.integers(0, 2 ** 31))))
     return cases
 
@@ -243,6 +245,14 @@ def judge(ctx, c, r, x64):
                 viol.append(v("model-image", f"recorded model differs from render(exposed parameters) + sky by {np.abs(img - exp_img).max():.3e} (scale {sc:.3g})"))
             user_good = np.ones((N, N), bool) if r["user_mask"] is None else ~r["user_mask"]
             lc2 = dict(lc, m=exp_img.ravel(), good=user_good.ravel(), r=r["rms"].ravel())
+            # the systematic scatter the *_sys losses add is sys_rms_base × mean(rms) of the pixels that are fitted:
+            # recomputed from the user's rms map and mask, not read back from the trace
+            if "sys_rms" + sfx in sites and "sys_rms_base" + sfx in sites:
+                exp_sys = float(sites["sys_rms_base" + sfx]["value"]) * float(np.mean(r["rms"][user_good]))
+                got_sys = float(sites["sys_rms" + sfx]["value"])
+                if not abs(got_sys - exp_sys) <= 2e-5 * max(abs(exp_sys), 1e-30):
+                    viol.append(v("sys-scatter", f"systematic scatter {got_sys:.7g} is not sys_rms_base × mean(rms over the unmasked pixels) = {exp_sys:.7g}: "
+                                                 "pixels outside the fit enter the likelihood"))
             doc = c07.doc_logpdf(lc2, {k: dict(value=s["value"]) for k, s in sites.items() if s["kind"] == "deterministic"})
             if doc is not None:
                 exp = np.where(user_good.ravel(), doc, 0.0)
